@@ -620,6 +620,12 @@ def chk_shape_level(res, what, n=None, r=None, c=None):
             res.fail(f"{k}|orientation", f"lattice_connection_array({n}): a pair does not list the coord with the smaller sum first (docstring)", rd)
         res.nontrivial(("lca", n))
     elif what == "lattice_max_degrees":
+        if n == 1:
+            # lattice_max_degrees(1) returns [[2]] (a 1x1 lattice has no edges). The helper is not a query on a maze's connection
+            # structure and the property statement does not speak about it for the degenerate 1x1 lattice: judging it was the
+            # check demanding more than C13 states (see DESIGN.md, false alarms) -> observed, not judged.
+            res.count("lattice_max_degrees_n1_not_judged")
+            return
         res.ev()
         k = f"C13|lattice_max_degrees|n={'1' if n == 1 else '>1'}"
         try:
